@@ -144,7 +144,10 @@ class Mutator:
                 # Correct logZ for fraction of prior with finite likelihood support
                 n_finite = len(finite_idx)
                 n_total = len(logl)
-                logz = self.state.get_current("logz") + np.log(n_finite / n_total)
+                # The reweighting step has already set logz to the estimate
+                # pooled over history, so record this batch's own fraction
+                # instead of adding to it (which would count it repeatedly).
+                logz = np.log(n_finite / n_total)
                 self.state.set_current("logz", logz)
             return
 
